@@ -178,6 +178,9 @@ func ReplayMain(harnesses map[string]func()) {
 	dir := os.Getenv("VERIF_PIN_DIR")
 	ents, _ := os.ReadDir(dir)
 	for _, e := range ents {
+		if len(e.Name()) < 3 || e.Name()[:3] != "pin" {
+			continue
+		}
 		b, err := os.ReadFile(dir + "/" + e.Name())
 		if err != nil {
 			continue
